@@ -156,6 +156,10 @@ def gen_cases(run):
                           kernel=r.choice(['l2', 'l2_high_dim']), diag=r.random() < 0.3, dseed=r.randint(0, 10 ** 6),
                           metric_via=r.choice(['ctor', 'fit', 'fit-flip', 'refit'])))
         cases[-1]['metric'] = r.choice(['accuracy', 'f1', 'auc']) if cases[-1]['maximize'] else r.choice(['mse', 'rmse', 'mae', 'brier', 'logloss'])
+        # scores in other units (losses of tiny or huge targets): selection and early stopping compare scores, they do not
+        # measure them against an absolute resolution
+        sc = r.choice([1.0, 1.0, 1.0, 1e-8, 1e-6, 1e6])
+        cases[-1]['scores'] = [x * sc for x in cases[-1]['scores']]
     return cases
 
 
